@@ -30,24 +30,24 @@ Proof.
   pose proof (upd_list_length (selb sel) pf (wpages t) 0) as Hl. unfold lenZ in Hl. lia.
 Qed.
 
-(* what the three page functions do to the observable page *)
-Definition set_rot (v : vpage) (r : Z) : vpage :=
-  mkV (v_id v) r (v_media v) (v_crop v) (v_trim v) (v_bleed v) (v_art v).
-
+(* what the page functions do to the observable page *)
 Lemma rotate_view delta d i :
-  wview (pf_rotate delta d (snd (eff (d, i))), i) = set_rot (wview (d, i)) (compose_rot (v_rot (wview (d, i))) delta).
+  wview (pf_rotate delta d (snd (eff (d, i))), i) = vf_rotate delta (wview (d, i)).
 Proof. reflexivity. Qed.
 
 Lemma orelse_assoc {A} (a b c : option A) : orelse (orelse a b) c = orelse a (orelse b c).
 Proof. destruct a; reflexivity. Qed.
 
+Lemma opt_def_orelse o m (own inh : option rect) :
+  orelse (opt_def o m own) inh = opt_def o m (orelse own inh).
+Proof. destruct o; reflexivity. Qed.
+
+(* add boxes: the parent-box rule of applyBoxDefinitions on the observable page *)
 Lemma addbox_view b d i :
-  wview (pf_addbox b d (snd (eff (d, i))), i) =
-  let v := wview (d, i) in
-  mkV (v_id v) (v_rot v) (orelse (b_media b) (v_media v)) (orelse (b_crop b) (v_crop v))
-      (orelse (b_trim b) (v_trim v)) (orelse (b_bleed b) (v_bleed v)) (orelse (b_art b) (v_art v)).
+  wview (pf_addbox b d (snd (eff (d, i))), i) = vf_addbox b (wview (d, i)).
 Proof.
-  unfold wview, view, eff, pf_addbox. simpl. rewrite !orelse_assoc. reflexivity.
+  unfold wview, view, eff, pf_addbox, vf_addbox, media_parent. simpl.
+  rewrite !opt_def_orelse. reflexivity.
 Qed.
 
 Lemma rmbox_view q d i :
@@ -148,4 +148,56 @@ Proof.
       constructor; [intros _; exists mb; reflexivity|]. constructor; [intros; discriminate|exact H3].
     + exists (true :: false :: keep). simpl. rewrite H1, H2. repeat split.
       constructor; [intros; discriminate|]. constructor; [intros _; exists mb; reflexivity|exact H3].
+Qed.
+
+(* ---------- sequences of per-page operations ---------- *)
+Definition uop := (list Z * (pageD -> attrs -> pageD))%type.
+Definition run_upd (us : list uop) (t : tree) : tree := fold_left (fun t u => upd_op (fst u) (snd u) t) us t.
+Definition spec_upd (us : list uop) (l : list wpage) : list wpage :=
+  fold_left (fun l u => upd_list (selb (fst u)) (snd u) 0 l) us l.
+
+Lemma run_upd_spec : forall us t,
+  wpages (run_upd us t) = spec_upd us (wpages t) /\
+  count_of (run_upd us t) = count_of t /\
+  (wf_count t = true -> wf_count (run_upd us t) = true).
+Proof.
+  induction us as [|[sel pf] us IH]; intros t; [repeat split; auto|].
+  unfold run_upd, spec_upd in *. simpl.
+  destruct (upd_op_spec sel pf t) as [H1 [H2 [H3 _]]].
+  destruct (IH (upd_op sel pf t)) as [I1 [I2 I3]]. rewrite I1, I2, H1, H2. repeat split; auto.
+Qed.
+
+Lemma upd_list_view sel pf vf : (forall d i, wview (pf d (snd (eff (d, i))), i) = vf (wview (d, i))) ->
+  forall l p, map wview (upd_list sel pf p l) = vupd_list sel vf p (map wview l).
+Proof.
+  intros H. induction l as [|[d i] l IH]; intros p; simpl; [reflexivity|].
+  rewrite IH. f_equal. destruct (sel (p + 1)); [apply H|reflexivity].
+Qed.
+
+Lemma op_vf_apply o sel vf t : op_vf o = Some (sel, vf) ->
+  exists t', apply_op o t = Ok t' /\ pages_of t' = vupd_list (selb sel) vf 0 (pages_of t) /\
+             (wf_count t = true -> wf_count t' = true).
+Proof.
+  destruct o as [? ? ?|?|?|?|s delta|s b|s q|s bd]; simpl; try discriminate.
+  - destruct (Z.rem delta 90 =? 0); [|discriminate]. intros [= <- <-].
+    eexists. split; [reflexivity|]. destruct (upd_op_spec s (pf_rotate delta) t) as [H1 [_ [H3 _]]].
+    split; [|exact H3]. rewrite !pages_walk, H1. apply upd_list_view. intros; apply rotate_view.
+  - intros [= <- <-]. eexists. split; [reflexivity|].
+    destruct (upd_op_spec s (pf_addbox b) t) as [H1 [_ [H3 _]]].
+    split; [|exact H3]. rewrite !pages_walk, H1. apply upd_list_view. intros; apply addbox_view.
+  - intros [= <- <-]. eexists. split; [reflexivity|].
+    destruct (upd_op_spec s (pf_addbox (mkBoxReq None (Some bd) None None None)) t) as [H1 [_ [H3 _]]].
+    split; [|exact H3]. rewrite !pages_walk, H1. apply upd_list_view. intros; apply addbox_view.
+Qed.
+
+(* any history of rotate / add boxes / crop steps: the observable page list of the result is the
+   view-level specification folded over the history *)
+Lemma vspec_run_ok : forall ops t l', vspec_run ops (pages_of t) = Some l' ->
+  exists t', run ops t = Ok t' /\ pages_of t' = l' /\ (wf_count t = true -> wf_count t' = true).
+Proof.
+  induction ops as [|o r IH]; intros t l'; simpl.
+  - intros [= <-]. exists t. auto.
+  - destruct (op_vf o) as [[sel vf]|] eqn:Eo; [|discriminate]. intros Hr.
+    destruct (op_vf_apply o sel vf t Eo) as [t1 [Ha [Hp Hw]]]. rewrite Ha, <- Hp in *.
+    destruct (IH t1 l' Hr) as [t' [H1 [H2 H3]]]. exists t'. repeat split; auto.
 Qed.
